@@ -346,10 +346,10 @@ def checkAppendLegal (myTerm : Nat) (l : Log) (r : AeReq) : AeResult :=
       else .conflict (some t) (some ((firstIndexForTerm l t).getD (r.prevI - 1)))
     | none => .conflict none (some (lastIndex l + 1))
 
-/-- heartbeat (no entries): nothing changes, the ack carries the follower's whole last log id;
-    otherwise `filter_out_conflicts_and_append`. -/
+/-- heartbeat (no entries): nothing changes, the ack carries what the request verified = (prev_index, prev_term)
+    (fix c57f05e; before it: the follower's whole last log id); otherwise `filter_out_conflicts_and_append`. -/
 def acceptOrKeep (log : Log) (r : AeReq) : Log × Option (Nat × Nat) × Option AcceptPath :=
-  if r.entries.isEmpty then (log, lastLogId log, none)
+  if r.entries.isEmpty then (log, if r.prevI > 0 then some (r.prevI, r.prevT) else none, none)
   else
     let a := acceptEntries log r.prevI r.prevT r.entries
     (a.1, a.2.1, some a.2.2)
@@ -374,6 +374,12 @@ def floorAfter (n : Node) (path : Option AcceptPath) (log' : Log) : Nat :=
   | some .slowConflict => lastIndex log'
   | _ => n.floor
 
+/-- `if_update_commit_index_as_follower` after fix c57f05e: min(leader_commit, index of the last entry covered by this
+    request), never lowered. -/
+def followerCommit (commit : Nat) (r : AeReq) : Nat :=
+  let c := min r.commit (r.prevI + r.entries.length)
+  if r.commit > commit && c > commit then c else commit
+
 /-- Follower workflow.  The response term and the commit comparison use the state snapshot taken on entry
     (`n.term`, `n.commit` — before the term update). -/
 def followerAppend (n : Node) (r : AeReq) : Node × Nat × AeResult × String :=
@@ -387,7 +393,7 @@ def followerAppend (n : Node) (r : AeReq) : Node × Nat × AeResult × String :=
     | .success _ =>
       let a := acceptOrKeep n.log r
       ({ n with vote := vote', term := term', log := a.1,
-                commit := if r.commit > n.commit then min r.commit (lastIndex a.1) else n.commit,
+                commit := followerCommit n.commit r,
                 durable := durableAfter n a.2.2 r, floor := floorAfter n a.2.2 a.1 },
        n.term, .success a.2.1, match a.2.2 with | some p => p.tag | none => "ae:heartbeat")
 
